@@ -1109,7 +1109,13 @@ fn run_sweep_reput(focus: &'static str, seed: u64, index: u64) -> CaseOut {
             if stalled && put_accepted {
                 counts.inc("reput_presence_checks");
                 let got = sut.cache.get(&key);
-                if got != Some(second) && ok {
+                // the upsert is meant to run before the delete, but its thread may be scheduled late: if its call had not returned before
+                // the delete began, it may legitimately have been applied to the new entry, whose value it then replaced
+                let delete_call = client.log.iter().find_map(|r| match &r.outcome { Outcome::Write { op: WriteOp::Delete { .. }, .. } => Some(r.call), _ => None }).unwrap_or(0);
+                let late_upsert_value = all_logs.iter().find_map(|r| match &r.outcome {
+                    Outcome::Write { op: WriteOp::Upsert { value: Some(v), .. }, status: Some(Waited::Ready(CommandStatus::Accepted)), .. } if r.ret > delete_call => Some(*v), _ => None });
+                if late_upsert_value.is_some() { counts.inc("upserts_that_ran_late_in_the_reput_race"); }
+                if got != Some(second) && !(got.is_some() && got == late_upsert_value) && ok {
                     findings.push(Finding { props: vec!["C03", "C10"], signature: "C03/accepted-put-lost/sweep-reput".into(),
                         detail: format!("key {} was put again (accepted, no TTL, no later delete) while the sweeper was evicting its expired earlier incarnation; it reads {:?}", key, got), witness: witness(&all), inconclusive: false });
                 }
